@@ -1573,7 +1573,7 @@ const c17CRule = "case = one execution of 2-3 clients sending short request sequ
 func TestVerif_C17_ConcurrentGated(t *testing.T) {
 	seed := kit.Seed(17)
 	shard, nshards := kit.Shard()
-	r := kit.NewResult(t, "c17-api-concurrent-gated", seed, c17CRule+"; interleavings: depth-first over all schedules with at most 2 preemptions (capped per scenario), then seeded PCT and uniformly random schedules")
+	r := kit.NewResult(t, "c17-api-concurrent-gated", seed, c17CRule+"; interleavings: depth-first over all schedules with at most 2 (thorough: 3) preemptions (capped per scenario), then seeded PCT and uniformly random schedules")
 	defer r.Write(t)
 	ctx := context.Background()
 	scens := c17CScenarios(seed)
@@ -1608,7 +1608,7 @@ func TestVerif_C17_ConcurrentGated(t *testing.T) {
 		if len(sc.Clients) > 2 || sc.Cache != "fresh" {
 			maxRuns = kit.N(15, 1500)
 		}
-		ex := &kit.Explorer{MaxPreempt: 2, MaxRuns: maxRuns}
+		ex := &kit.Explorer{MaxPreempt: kit.N(2, 3), MaxRuns: maxRuns}
 		stop := false
 		ex.Explore(func(pol kit.Policy) (kit.Schedule, bool) {
 			id := fmt.Sprintf("tbc:%d:%d:x:%s", shard, sc.Idx, strings.Join(pol.(kit.Script).Choices, ""))
